@@ -103,7 +103,7 @@ def prop_C16(ctx, tier):
               'Not decided: arithmetic overflow on absurd sizes; panics inside user code.', ASSUME_COMMON)
     w = ctx.world
     n, bad = L.check_reborrow(run, w)
-    run.require('C16-R1', 'RefCell borrow sites', n, 20)
+    run.require('C16-R1', 'RefCell borrow sites', n, 8)
     if tier == 'thorough':
         n5, _ = L.check_reborrow(run, ctx.u5_world, label='repo-own/')
         run.require('C16-R1', 'RefCell borrow sites incl. repository tests/examples', n5, 20)
